@@ -151,6 +151,27 @@ def build_config(ua=None, extra_text_bs=False):
                 v = text(1, 8, "abcxyz.") ; extra.append(cfggen.setting(idx, T_PTR, v.encode(), 33)); want["dns-beacon." + key] = [v]
     if rng.random() < 0.4:
         v = rng.choice([0, 1]); extra.append(cfggen.setting(28 + 10, T_SHORT, v)); want["stage.cleanup"] = [str(v)]
+    # integer-valued options whose zero value is meaningful (0.0.0.0 is the default idle address, VirtualAlloc is allocator 0)
+    if rng.random() < 0.4:
+        v = rng.choice([0, 0, 0x01020304, 0xffffffff, rng.randrange(2 ** 32)]); extra.append(cfggen.setting(19, T_INT, v))
+        want["dns-beacon.dns_idle"] = [".".join(str(b) for b in v.to_bytes(4, "big"))]
+    if rng.random() < 0.3:
+        v = rng.choice([0, 1, 1000, rng.randrange(2 ** 31)]); extra.append(cfggen.setting(20, T_INT, v)); want["dns-beacon.dns_sleep"] = [str(v)]
+    if rng.random() < 0.3:
+        v = rng.choice([0, 1, 255, rng.randrange(2 ** 16)]); extra.append(cfggen.setting(6, T_SHORT, v)); want["dns-beacon.maxdns"] = [str(v)]
+    if rng.random() < 0.4:
+        v = rng.choice([0, 0, 1, 2]); extra.append(cfggen.setting(16, T_SHORT, v))
+        want["process-inject.bof_allocator"] = [["VirtualAlloc", "MapViewOfFile", "HeapAlloc"][v]]
+    if rng.random() < 0.3:
+        v = rng.choice([0, 1]); extra.append(cfggen.setting(48, T_SHORT, v))
+        if v:
+            want["process-inject.bof_reuse_memory"] = ["true"]
+    if rng.random() < 0.3:
+        v = rng.choice([0, 1, 16, rng.randrange(2 ** 16)]); extra.append(cfggen.setting(76, T_SHORT, v)); want["stage.data_store_size"] = [str(v)]
+    if rng.random() < 0.3:
+        v = rng.choice([0, 1]); extra.append(cfggen.setting(77, T_SHORT, v))
+        if v:
+            want["http-beacon.data_required"] = ["true"]
     domains = ",".join(f"{text(3, 10, 'abcdefgh.')}x,/{text(1, 10, 'abcXYZ019/._-')}" for _ in range(rng.randrange(1, 4)))
     blk, desc = cfggen.config_block(rng, profile=(get, post, server), domains=domains, extra=extra)
     return blk, desc, want
@@ -217,7 +238,7 @@ def check(blk, desc, want, comp_, key, klass=None):
             elif [dec(x).decode("latin-1") for x in d.get(k, [])] != v:
                 problems.append({"key": k, "got": repr(d.get(k))[:200], "want": repr(v)[:200]})
         for block, keys in (("dns-beacon {", [k for k in want if k.startswith("dns-beacon")]), ("process-inject {", [k for k in want if k.startswith("process-inject")]),
-                            ("http-beacon {", [])):
+                            ("http-beacon {", [k for k in want if k.startswith("http-beacon")])):
             if not keys and block in txt:
                 problems.append({"key": block, "problem": "empty block not omitted"})
         ok = not problems
